@@ -55,10 +55,8 @@ impl Serialize for SecretStorageEncryptionAlgorithm {
                 SecretStorageEncryptionAlgorithmSerHelper { algorithm, properties }
                     .serialize(serializer)
             }
-            Self::_Custom(properties) => {
-                SecretStorageEncryptionAlgorithmSerHelper { algorithm, properties }
-                    .serialize(serializer)
-            }
+            // The custom payload already contains the `algorithm` field.
+            Self::_Custom(custom) => custom.serialize(serializer),
         }
     }
 }
